@@ -68,7 +68,8 @@ class _MetaHTMLParser(html.parser.HTMLParser):
 
     def handle_starttag(self, tag, attrs):
         if tag == 'meta' and not self.content_type:
-            atts = {a.lower(): v.lower() for a, v in attrs}
+            # an attribute without a value comes as (name, None)
+            atts = {a.lower(): (v or '').lower() for a, v in attrs}
             if atts.get('http-equiv', '').strip() == 'content-type':
                 self.content_type = atts.get('content')
 
@@ -304,7 +305,9 @@ def getMetaInfo(text, log=None):
 
     try:
         p.feed(text)
-    except html.parser.HTMLParseError:
+    except Exception:
+        # sniffing only: what has been seen until here is used
+        # (html.parser.HTMLParseError does not exist anymore)
         pass
 
     if p.content_type:
@@ -401,7 +404,7 @@ def detectXMLEncoding(fp, log=None, includeDefault=True):  # noqa: C901
     xmlDeclPattern = r"""
     ^<\?xml             # w/o BOM, xmldecl starts with <?xml at the first byte
     [^?]+?              # some chars (version info), matched minimal
-    encoding=           # encoding attribute begins
+    encoding\s*=\s*     # encoding attribute begins
     ["']                # attribute start delimiter
     (?P<encstr>         # what's matched in the brackets will be named encstr
      [^"']+              # every character not delimiter (not overly exact!)
